@@ -59,7 +59,7 @@ Defaults   == << [k |-> "none", v |-> ""], [k |-> "none", v |-> ""], [k |-> "int
                  [k |-> "str", v |-> "true"], [k |-> "str", v |-> "False"], [k |-> "int", v |-> "12345678901234567890"],
                  [k |-> "expr", v |-> "(a) * (b)"], [k |-> "expr", v |-> "(now())"] >>
 Colors     == <<"", "", "#abc", "#A1B2C3", "#fff000">>
-PropKeys   == <<"owner", "pii", "k_3", "my key", "notes_key", "k[1]">>
+PropKeys   == <<"owner", "pii", "k_3", "my key", "notes_key", "k[1]", "dir\\new", "fmt\\tspec">>      \* (backslash + n / t inside a quoted key: two characters)
 RefKinds   == <<">", "<", "-", "<>">>
 Actions    == <<"", "", "", "cascade", "no action", "restrict", "set null", "set default">>
 IdxTypes   == <<"", "", "btree", "hash", "gin", "gist", "brin", "spgist">>
